@@ -107,7 +107,10 @@ pub fn run_one(spec: &WorkerSpec, prefix: &[u8]) -> Outcome {
     let f = scenarios::lookup(&spec.scenario).unwrap_or_else(|| panic!("unknown scenario {}", spec.scenario));
     let cfg = spec.cfg.clone();
     let ec = ExecConfig { max_steps: MAX_STEPS, elide_unlock: spec.elide, try_sites: spec.try_sites.clone(), spurious: spec.cfg.opt("spur", 0) as u32 };
-    run_execution(prefix, &ec, move || f(&cfg))
+    run_execution(prefix, &ec, move || {
+        crate::h::set_current_cfg(&cfg);
+        f(&cfg)
+    })
 }
 
 fn sites_to_string(s: &[(String, u32)]) -> String {
